@@ -11,7 +11,7 @@ import (
 func init() {
 	register(&Prop{
 		ID: "C14",
-		Decided: "(1) evaluation order relative to WHERE in the function both API paths share: with a WHERE free of analytic calls the predicate is evaluated first and a rejected row never reaches the analytic engine (state not advanced); with analytic calls in WHERE the engine runs before the predicate; (2) the partition key encoder is typed and length-prefixed (uniquely decodable, NULL distinct); (3) WHEN gating: on the false edge of the WHEN predicate no state is looked up or advanced; (4) LRU eviction is reachable only when the number of live partitions exceeds the cap, and it removes the oldest entry together with its last result; (5) every AnalyticState implementation: NewState returns a new object sharing no reference-typed state with the prototype, Apply writes only its receiver; (6) partitions/lru/lastResults/noPart/wrapperParsed are accessed only under fe.mu.",
+		Decided: "(1) evaluation order relative to WHERE in the function both API paths share: with a WHERE free of analytic calls the predicate is evaluated first and a rejected row never reaches the analytic engine (state not advanced); with analytic calls in WHERE the engine runs before the predicate; (2) the partition key encoder is typed and length-prefixed (uniquely decodable, NULL distinct), and the PARTITION BY value is resolved by exact name, then as a path, the bare-suffix heuristic only as a fallback; (3) WHEN gating: on the false edge of the WHEN predicate no state is looked up or advanced; (4) LRU eviction is reachable only when the number of live partitions exceeds the cap, and it removes the oldest entry together with its last result; (5) every AnalyticState implementation: NewState returns a new object sharing no reference-typed state with the prototype, Apply writes only its receiver; (6) partitions/lru/lastResults/noPart/wrapperParsed are accessed only under fe.mu.",
 		NotDecided: "each function's definition (offsets, defaults, NULL skipping, start/reset arguments), wrapper-expression values, behaviour above the partition cap beyond 'the oldest goes'.",
 		Run: runC14,
 	})
@@ -77,6 +77,37 @@ func runC14(a *A) {
 		}
 	})
 	a.Rule("keyenc/partition", 1, func() { a.keyencRule("stream", "analyticFieldEngine", "partitionKey", keyencOpts{}) })
+	a.Rule("flow/partition-field-resolution", 1, func() {
+		fn := a.Func("stream", "resolvePartitionField")
+		isNested := func(in ssa.Instruction) bool { return isCallNamed(in, modPath+"/utils/fieldpath", "GetNestedField") }
+		isSuffix := func(in ssa.Instruction) bool {
+			cal := staticCallee(in)
+			return cal != nil && cal.Name() == "lookupRowField"
+		}
+		a.ruleStageOrder(fn, []stage{
+			{name: "exact/nested path lookup", match: isNested},
+			{name: "bare-suffix fallback", match: isSuffix, optional: true},
+		})
+		// the direct row[key] lookup comes first of all
+		var direct ssa.Instruction
+		allInstrs(fn, func(in ssa.Instruction) {
+			if lk, ok := in.(*ssa.Lookup); ok && direct == nil {
+				if _, isP := lk.X.(*ssa.Parameter); isP {
+					direct = in
+				}
+			}
+		})
+		ok := direct != nil
+		if ok {
+			allInstrs(fn, func(in ssa.Instruction) {
+				if (isNested(in) || isSuffix(in)) && !dominatesInstr(direct, in) {
+					ok = false
+				}
+			})
+		}
+		a.Check(ok, fname(fn)+"#exact-first", fn.Pos(), "the PARTITION BY key is looked up by its exact name first, then as a path; the suffix heuristic is only a fallback",
+			"a PARTITION BY column is not resolved by exact name / path before the bare-suffix fallback: a qualified column (m.location) can be taken from another column with the same suffix, merging or splitting partitions")
+	})
 	a.Rule("flow/when-gating", 1, func() {
 		fn := a.Method("stream", "analyticFieldEngine", "evaluate")
 		n := 0
